@@ -392,28 +392,101 @@ type BinCase struct {
 
 var specBin = pbt.Spec[BinCase]{
 	Prop: "C18", Name: "binary-header",
-	Gen: func(t *rapid.T) BinCase { return BinCase{Data: rapid.SliceOfN(rapid.Byte(), 0, 64).Draw(t, "data")} },
-	Check: func(tt *testing.T, c BinCase) (pbt.Info, error) {
+	Gen: func(t *rapid.T) BinCase {
+		switch rapid.IntRange(0, 3).Draw(t, "class") {
+		case 0:
+			return BinCase{Data: rapid.SliceOfN(rapid.Byte(), 0, 64).Draw(t, "data")}
+		case 1:
+			// every length up to 2 KiB is equally likely
+			return BinCase{Data: expand(rapid.IntRange(0, 2048).Draw(t, "len"), rapid.Uint32().Draw(t, "fill"))}
+		case 2:
+			// around powers of two up to 64 KiB
+			n := (1 << rapid.IntRange(0, 16).Draw(t, "pow")) + rapid.IntRange(-3, 3).Draw(t, "delta")
+			return BinCase{Data: expand(max(n, 0), rapid.Uint32().Draw(t, "fill"))}
+		}
+		return BinCase{Data: rapid.SliceOfN(rapid.Byte(), 0, 600).Draw(t, "mid")}
+	},
+	Check: checkBin,
+	Rule:  "byte strings of every length: random ≤64 B and ≤600 B, uniformly chosen lengths 0..2048 and lengths within ±3 of every power of two up to 64 KiB with pseudo-random content: EncodeBinaryHeader is header-safe, DecodeBinaryHeader inverts it for padded and unpadded spellings and never panics on arbitrary input; non-trivial = length not a multiple of 3",
+}
+
+// expand returns n bytes of deterministic pseudo-random content.
+func expand(n int, fill uint32) []byte {
+	out := make([]byte, n)
+	x := fill | 1
+	for i := range out {
+		x = x*1664525 + 1013904223
+		out[i] = byte(x >> 24)
+	}
+	return out
+}
+
+func checkBin(tt *testing.T, c BinCase) (pbt.Info, error) {
+	{
 		info := pbt.Info{NonTrivial: len(c.Data)%3 != 0}
 		enc := connect.EncodeBinaryHeader(c.Data)
 		if !refwire.IsHeaderSafe(enc) {
-			return info, fmt.Errorf("EncodeBinaryHeader(%x) = %q is not header-safe", c.Data, enc)
+			return info, fmt.Errorf("EncodeBinaryHeader(%d bytes %x…) = %.80q is not header-safe", len(c.Data), head(c.Data), enc)
 		}
 		for _, in := range []string{enc, base64.StdEncoding.EncodeToString(c.Data)} {
 			dec, err := connect.DecodeBinaryHeader(in)
 			if err != nil || !bytes.Equal(dec, c.Data) {
-				return info, fmt.Errorf("DecodeBinaryHeader(%q) = %x, %v; want %x", in, dec, err, c.Data)
+				return info, fmt.Errorf("DecodeBinaryHeader(%.80q… of a %d-byte value) = %x…, %v; want %x…", in, len(c.Data), head(dec), err, head(c.Data))
 			}
 		}
 		// decoder is total on arbitrary input
 		_, _ = connect.DecodeBinaryHeader(string(c.Data))
 		return info, nil
-	},
-	Rule: "random byte strings ≤64 B: EncodeBinaryHeader is header-safe, DecodeBinaryHeader inverts it for padded and unpadded spellings and never panics on arbitrary input; non-trivial = length not a multiple of 3",
+	}
 }
 
 func TestBinaryHeader(t *testing.T) { pbt.Run(t, specBin) }
 
+// TestBinaryHeaderSweep enumerates every length 0..N (two fills each).
+func TestBinaryHeaderSweep(t *testing.T) {
+	defer pbt.Flush()
+	maxLen := 4096
+	if pbt.Thorough() {
+		maxLen = 70000
+	}
+	total, nt := 0, 0
+	for n := 0; n <= maxLen; n++ {
+		for _, fill := range []uint32{0xffffffff, uint32(n)*2654435761 + 12345} {
+			c := BinCase{Data: expand(n, fill)}
+			if fill == 0xffffffff {
+				for i := range c.Data {
+					c.Data[i] = 0xff
+				}
+			}
+			info, err := func() (info pbt.Info, err error) {
+				defer func() {
+					if r := recover(); r != nil {
+						err = fmt.Errorf("panic for a %d-byte value: %v", n, r)
+					}
+				}()
+				return checkBin(t, c)
+			}()
+			total++
+			if info.NonTrivial {
+				nt++
+			}
+			if err != nil {
+				path := pbt.SaveReplay(specBin, c, err)
+				fmt.Printf("VIOLATION property=C18 replay=%s\n", path)
+				t.Fatalf("C18/binary-header violated: %v", err)
+			}
+		}
+	}
+	pbt.RecordBulk("C18", "binary-header-sweep", fmt.Sprintf("EVERY length 0..%d × {all 0xFF, pseudo-random} through the binary-header round-trip oracle; non-trivial = length not a multiple of 3", maxLen), total, nt, true, BinCase{Data: expand(5, 7)})
+}
+
 func TestReplay(t *testing.T) {
 	pbt.ReplayMain(t, pbt.Replayer(specCode), pbt.Replayer(specReject), pbt.Replayer(specMsg), pbt.Replayer(specDec), pbt.Replayer(specStatus), pbt.Replayer(specBin))
+}
+
+func head(b []byte) []byte {
+	if len(b) > 24 {
+		return b[:24]
+	}
+	return b
 }
